@@ -8,6 +8,7 @@ use std::str::Chars;
 verus! {
 
 //@include spec/syntax.rs
+//@include prelude/str_model.rs
 //@include spec/grammar.rs
 //@include spec/lex.rs
 //@include prelude/lex_model.rs
